@@ -246,6 +246,22 @@ fn read_items<I: DataInput>(inp: &mut I, items: &[Item], tail: &[u8]) -> Result<
     if g != tail { return Err(format!("trailing bytes read back as {:?}", g)); }
     Ok(())
 }
+/// As `read_items`, for the random-access inputs (slice, the two mapped inputs, the range reader), whose fixed-width readers
+/// check that the field fits before touching anything: with 1..7 trailing bytes left, a fixed-width read wider than what is left
+/// is refused and consumes nothing - position() stays, and the trailing bytes are still read back in full afterwards.
+fn read_items_refused<I: DataInput>(inp: &mut I, items: &[Item], tail: &[u8]) -> Result<(), String> {
+    read_items_only(inp, items, tail.len())?;
+    if !tail.is_empty() && tail.len() < 8 {
+        let before = inp.position();
+        let (w, refused) = if tail.len() < 2 { (2, inp.read_u16().is_err()) } else if tail.len() < 4 { (4, inp.read_u32().is_err()) } else { (8, inp.read_u64().is_err()) };
+        if !refused { return Err(format!("a {}-byte read succeeded with {} bytes left", w, tail.len())); }
+        if inp.position() != before { return Err(format!("a refused {}-byte read with {} bytes left moved position() from {:?} to {:?}", w, tail.len(), before, inp.position())); }
+        if inp.has_remaining() == Some(false) { return Err(format!("after a refused {}-byte read with {} bytes left has_remaining() = false", w, tail.len())); }
+    }
+    let g = inp.read_vec(tail.len()).map_err(|e| format!("trailing bytes unreadable after a refused wider read: {}", e))?;
+    if g != tail { return Err(format!("trailing bytes read back as {:?}", g)); }
+    Ok(())
+}
 /// Reads the items and stops; `extra` bytes follow them in the input.
 fn read_items_only<I: DataInput>(inp: &mut I, items: &[Item], extra: usize) -> Result<(), String> {
     let mut want = 0u64;
@@ -435,7 +451,7 @@ fn consume(cx: &Ctx, k: usize, bytes: &[u8], items: &[Item], tail: &[u8], p: u64
             read_items_only(&mut i, items, tail.len())?;
             if i.remaining_slice() != tail || i.remaining() != tail.len() || i.has_more() != !tail.is_empty() { return Err(format!("after the items remaining_slice() has {} bytes, the trailing bytes are {}", i.remaining_slice().len(), tail.len())); }
             let mut i = SliceDataInput::new(&all);
-            read_items(&mut i, items, tail)?;
+            read_items_refused(&mut i, items, tail)?;
             if i.pos() != all.len() || i.remaining() != 0 || i.has_more() || !i.remaining_slice().is_empty() { return Err(format!("slice input ends at pos {} of {}", i.pos(), all.len())); }
             Ok(())
         }
@@ -446,7 +462,7 @@ fn consume(cx: &Ctx, k: usize, bytes: &[u8], items: &[Item], tail: &[u8], p: u64
             if all.is_empty() { return Ok(()); } // an empty file cannot be mapped; nothing to read anyway
             std::fs::write(&path, &all).map_err(io)?;
             let mut i = MmapDataInput::open(&path).map_err(e)?;
-            read_items(&mut i, items, tail)?;
+            read_items_refused(&mut i, items, tail)?;
             if i.pos() != all.len() || i.remaining() != 0 { return Err("mmap input end position".into()); }
             Ok(())
         }
@@ -465,7 +481,7 @@ fn consume(cx: &Ctx, k: usize, bytes: &[u8], items: &[Item], tail: &[u8], p: u64
                 _ => MemoryMappedInput::new_with_pattern(std::fs::File::open(&path).map_err(io)?, pat),
             }.map_err(e)?;
             if i.len() != padded.len() || i.is_empty() != padded.is_empty() { return Err("mapped input len()".into()); }
-            read_items(&mut i, items, &t2)?;
+            read_items_refused(&mut i, items, &t2)?;
             if i.position() != padded.len() || i.remaining() != 0 { return Err(format!("mapped input ends at {} of {}", i.position(), padded.len())); }
             Ok(())
         }
@@ -481,7 +497,7 @@ fn consume(cx: &Ctx, k: usize, bytes: &[u8], items: &[Item], tail: &[u8], p: u64
                 1 => { let mut c = Cursor::new(big); c.set_position(st); RangeReader::with_range(c, st, st + ln) }
                 _ => zipora::io::range::reader(Cursor::new(big), st, ln).map_err(e)?,
             };
-            read_items(&mut i, items, tail)?;
+            if p % 2 == 0 { read_items_refused(&mut i, items, tail)?; } else { read_items(&mut i, items, tail)?; }
             if i.remaining() != 0 || !i.is_at_end() { return Err(format!("range reader has {} bytes left", i.remaining())); }
             if i.read_u8().is_ok() { return Err("range reader read past the end of its range".into()); }
             Ok(())
